@@ -205,7 +205,7 @@ atom("sorted_heapq", "a = sorted(xs)[0]\na2 = sorted(xs)[-1]\na3 = sorted(xs)[:2
 # ---- (K) misc
 atom("context_manager", "fh = open(FIXTURE)\ntxt = fh.read()\nfh.close()\n", "txt")
 atom("duplicate_functions", "def f1(w):\n    return w + 1\ndef f2(w):\n    return w + 1\na = (f1(1), f2(2))\n", "a", ["core"])
-atom("duplicate_functions_docs", "def f3(w):\n    'doc a'\n    return w + 1\ndef f4(w):\n    'doc b'\n    return w + 1\na = (f3(1), f4(2), f4.__name__)\n", "a")
+atom("duplicate_functions_docs", "def f3(w):\n    'doc a'\n    return w + 1\ndef f4(w):\n    'doc b'\n    return w + 1\na = (f3(1), f4(2))\n", "a")
 atom("duplicate_imports", "import math\nimport math\nfrom os import sep\nfrom os import sep, linesep\na = (math.floor(1.5), sep)\n", "a")
 atom("blank_lines", "a = 1\n\n\n\n\nb = 2\n", "a, b")
 atom("overused_constant", "".join("r%d = ident('abcdefghijklmnopqrstuvwxyz')\n" % i for i in range(6)), "r0, r5")
@@ -236,6 +236,36 @@ atom("numpy_dot", "import numpy as np\nu1 = np.array([1, 2, 3])\nu2 = np.array([
 atom("numpy_matmul_T", "import numpy as np\nm1 = np.array([[1, 2], [3, 4]])\nm2 = np.array([[5, 6], [7, 8]])\na = np.matmul(m1.T, m2.T).T\n", "a.tolist()", ["numpy"])
 atom("numpy_implicit_matmul", "import numpy as np\nm1 = np.array([[1, 2], [3, 4]])\nm2 = np.array([[5, 6], [7, 8]])\na = np.array([[np.dot(m1[i, :], m2[:, j]) for j in range(2)] for i in range(2)])\n", "a.tolist()", ["numpy"])
 
+PANDAS_STANDIN = (
+    "class Frame:\n"
+    "    def __init__(self, rows):\n        self.rows = rows\n        self.index = list(range(len(rows)))\n"
+    "    class _Cell:\n        def __init__(self, f):\n            self.f = f\n"
+    "        def __getitem__(self, k):\n            r, c = k\n"
+    "            row = self.f.rows[r]\n            return row[c] if isinstance(c, str) else list(row.values())[c]\n"
+    "    loc = property(lambda self: Frame._Cell(self))\n    at = property(lambda self: Frame._Cell(self))\n"
+    "    iloc = property(lambda self: Frame._Cell(self))\n    iat = property(lambda self: Frame._Cell(self))\n"
+    "    def iterrows(self):\n        for i, r in enumerate(self.rows):\n            yield i, Row(r)\n"
+    "    def itertuples(self):\n        T = collections.namedtuple('Pandas', ['Index'] + list(self.rows[0]))\n"
+    "        for i, r in enumerate(self.rows):\n            yield T(i, *r.values())\n"
+    "class Row(dict):\n    at = property(lambda self: self)\n    iat = property(lambda self: list(self.values()))\n"
+    "df = Frame([{'value': 1, 'w': 2}, {'value': 3, 'w': 4}])\n"
+    # the stand-in lives in the same file only because pandas cannot be installed: keep every member "used"
+    "warm = (df.index, list(df.itertuples()), list(df.iterrows()), df.at[0, 'w'], df.iat[0, 0], df.loc[0, 'w'], df.iloc[0, 0],\n"
+    "        Row({'w': 1}).at, Row({'w': 1}).iat)\n"
+)
+atom("pandas_loc_at", PANDAS_STANDIN + "y1 = df.loc[1, 'value']\ny2 = df.iloc[0, 1]\n", "y1, y2", ["pandas"])
+atom("pandas_iterrows_index", PANDAS_STANDIN + "for i0, _ in df.iterrows():\n    note(i0)\nr = [i1 for i1, _ in df.iterrows()]\n", "r", ["pandas"])
+atom("pandas_iterrows_itertuples", PANDAS_STANDIN + "for _, row in df.iterrows():\n    note(row['value'])\n    note(row.at['w'])\n    note(row.iat[1])\n", "", ["pandas"])
+atom("numpy_matmul_comp", "import numpy as np\nm1 = np.array([[1, 2], [3, 4]])\nm2 = np.array([[5, 6], [7, 8]])\nu0 = np.array([[np.dot(a_, b_) for a_ in m1] for b_ in m2.T]).T\n", "u0.tolist()", ["numpy"])
+atom("missing_import_uncalled", "def uncalled():\n    return Path('x'), Sequence\nnote(uncalled.__doc__)\n")
+atom("implicit_defaultdict3", "r = {}\nfor w in xs:\n    if w not in r:\n        r[w] = []\n    r[w].append(w * 2)\n", "dict(r)")
+atom("implicit_defaultdict_set", "r = {}\nfor w in xs:\n    if w not in r:\n        r[w] = set()\n    r[w].add(w * 2)\n", "dict(r)")
+atom("logging_percent_args", "logging.basicConfig(stream=sys.stdout, level=logging.INFO, format='%(message)s', force=True)\nlogging.info('val %s' % (v,))\nlogging.info('val %s and %d' % (v, 3))\nlogging.warning('w %s' % t)\n")
+atom("collection_add_selfref", "r = [1]\nr.append(len(r))\nr2 = {1}\nr2.add(len(r2) + 5)\n", "r, sorted(r2)")
+atom("dict_update_selfref", "r = {1: 2}\nr.update({3: len(r)})\n", "r")
+atom("dictcomp_assign_selfref", "r = {w: 1 for w in xs}\nr[9] = len(r)\n", "r")
+atom("listcomp_append_selfref", "r = [w for w in xs]\nfor u in ys:\n    r.append(u + len(r))\n", "r")
+
 CORE = [n for n, a in ATOMS.items() if "core" in a["tags"]]
 
 CONTEXTS = ("module", "function", "loop", "method")
@@ -257,18 +287,15 @@ def program_space(tier):
             for ctx in ("module", "function"):
                 out.append({"atoms": [a, b], "ctx": ctx})
     if tier == "thorough":
-        allatoms = list(ATOMS)
         coreset = set(core)
-        for a in allatoms:
-            for b in allatoms:
-                if a in coreset and b in coreset:
-                    continue
-                if "module_only" in ATOMS[a]["tags"] or "module_only" in ATOMS[b]["tags"]:
-                    ctxs = ("module",)
-                else:
-                    ctxs = ("module", "function")
-                for ctx in ctxs:
-                    out.append({"atoms": [a, b], "ctx": ctx})
+        for a in ATOMS:
+            if a in coreset:
+                continue
+            for b in core:
+                for pair in ((a, b), (b, a)):
+                    ctxs = ("module",) if "module_only" in ATOMS[a]["tags"] else ("module", "function")
+                    for ctx in ctxs:
+                        out.append({"atoms": list(pair), "ctx": ctx})
         k3 = core[:12]
         for a in k3:
             for b in k3:
